@@ -221,6 +221,12 @@ func c12World(t *testing.T, r *simcore.Run) any {
 	nops := 4 + tp.Intn(28, "nops")
 	r.YieldsOn = tp.Bool(3, 4, "yields")
 	r.YieldNum, r.YieldDen = uint64(1+tp.Intn(4, "ynum")), 4
+	if tp.Bool(1, 3, "stalls") {
+		// callers that are taken off the processor between two statements, for nanoseconds or for
+		// longer than a renewal interval
+		r.StallPerMille = uint64(1 + tp.Intn(60, "stallrate"))
+		r.StallFor = []time.Duration{time.Nanosecond, time.Second, time.Hour, c12Renewal + time.Nanosecond, 2 * time.Nanosecond}
+	}
 	preAge := []time.Duration{0, time.Hour, 23 * time.Hour, 25 * time.Hour, 80 * time.Hour}[tp.Intn(5, "preage")]
 
 	// a quarter of the runs live in a time zone with daylight saving time and start within
@@ -311,6 +317,7 @@ func c12World(t *testing.T, r *simcore.Run) any {
 	}
 
 	done := 0
+	stalledOps := 0
 	for c := 0; c < ncallers; c++ {
 		c := c
 		go func() {
@@ -333,8 +340,20 @@ func c12World(t *testing.T, r *simcore.Run) any {
 				switch op.Kind {
 				case "current":
 					key := prov.Current()
-					if time.Now() != now {
-						panic("harness: time advanced inside an operation")
+					if end := time.Now(); end != now {
+						// the caller was stalled inside the call (r.StallPerMille): the key was handed out
+						// at some instant of [now, end] - valid at one of them, generated at most a renewal
+						// interval before one of them; the run's history is not fed to the sequential model
+						stalledOps++
+						op.Ret = tick()
+						if end.Before(key.Validity.NotBefore) || now.After(key.Validity.NotAfter) {
+							r.Fail("C12", "current/not-valid", "Current() called at %v, back at %v (stalled inside), returned key %d valid %v..%v", op.At, rel(end), key.ID, rel(key.Validity.NotBefore), rel(key.Validity.NotAfter))
+						}
+						if age := now.Sub(key.Validity.NotBefore); age > c12Renewal {
+							r.Fail("C12", "current/too-old", "Current() called at %v (stalled inside) returned key %d generated %v before the call (> 24h)", op.At, key.ID, age)
+						}
+						r.Probe("stalled-inside-a-call")
+						continue
 					}
 					op.Ret = tick()
 					op.OK, op.KeyID, op.NB, op.NA = true, key.ID, rel(key.Validity.NotBefore), rel(key.Validity.NotAfter)
@@ -385,8 +404,13 @@ func c12World(t *testing.T, r *simcore.Run) any {
 					}
 					op.ID = id
 					key, ok := prov.Get(id)
-					if time.Now() != now {
-						panic("harness: time advanced inside an operation")
+					if end := time.Now(); end != now {
+						stalledOps++
+						if ok && (end.Before(key.Validity.NotBefore) || now.After(key.Validity.NotAfter)) {
+							r.Fail("C12", "get/expired-served", "Get(%d) called at %v, back at %v (stalled inside), returned a key valid %v..%v", id, op.At, rel(end), rel(key.Validity.NotBefore), rel(key.Validity.NotAfter))
+						}
+						r.Probe("stalled-inside-a-call")
+						continue
 					}
 					op.Ret = tick()
 					op.OK = ok
@@ -431,7 +455,7 @@ func c12World(t *testing.T, r *simcore.Run) any {
 	r.Count("callers", int64(ncallers))
 
 	// History check: linearizability against a model written from the statement.
-	if r.Violation() == nil && len(hist) <= 60 {
+	if r.Violation() == nil && len(hist) <= 60 && stalledOps == 0 {
 		c12Porcupine(r, hist)
 	}
 	sample := map[string]any{"callers": ncallers, "ops_per_caller": nops, "yields": r.YieldsOn,
